@@ -198,6 +198,18 @@ impl Inst {
         }
     }
 
+    /// Like `run_quiet`, but the call is made from a destructor that runs while the calling thread
+    /// is unwinding from an unrelated panic.
+    pub fn run_quiet_during_unwind(&mut self, m: DMode) -> Option<String> {
+        let ctx = self.ctx.clone();
+        ctx.set_mode(Mode::Quiet);
+        let world = &self.world;
+        let d = self.disp.as_mut().expect("dispatcher present");
+        let r = during_unwind(|| call(d, world, m));
+        ctx.set_mode(Mode::Build);
+        r.err()
+    }
+
     /// Unmonitored call (counters, real borrows and payload work only).
     pub fn run_quiet(&mut self, m: DMode) -> Option<String> {
         let ctx = self.ctx.clone();
